@@ -213,7 +213,9 @@ def run_case(case, rec):
             cvr_list.append(CVR(id=f"phantom-1-{pos}", votes={}, phantom=True))
         elif vendor == "dominion":
             c = CVR(id=f"{tab}-{batch}-{pos}", votes={"x": {"a": 1}})
-            c.card_in_batch = pos
+            # card_in_batch is a separate attribute (set_card_in_batch_lex makes it the 0-based lexicographic position):
+            # identifiers must come from the CVR id whatever it holds
+            c.card_in_batch = rng.choice((pos, pos - 1, None, pos + 100))
             cvr_list.append(c)
         else:
             cvr_list.append(CVR(id=f"{batch}_{pos}", votes={"x": {"a": 1}}))
